@@ -25,7 +25,12 @@ import Dhcp.V6.Build
   accepts, and the no-response error when there is none before the retry
   budget ends, is what C10 (`C10_own`, `C10_first`: routing and "first
   acceptable in arrival order"), C11 (the call completes) and C12 (how often
-  and when the request is retransmitted) establish; nothing here re-proves it.
+  and when the request is retransmitted) establish.  The connection is a
+  theorem: Dhcp/Client/Refine.lean turns a routed stream with arrival instants
+  into an observation sequence of C11/C12's timed machine, and
+  `C13_call_refines_timed` (Props/C13.lean) proves that the machine returns
+  exactly `stream.find? match`, at that packet's arrival instant, and the
+  no-response error at the budget when there is none.
   `none` is `ErrNoResponse` (any error of `SendAndRead`: the exchange functions
   only wrap it).  A context that ends or a Close are C11's subject.
 
